@@ -600,6 +600,12 @@ func (t *Teamserver) DispatchEvent(pk packager.Package) {
 								ListenerName = val.(string)
 							}
 
+							// listener names are unique across all kinds
+							if t.ListenerExist(ListenerName) {
+								t.EventListenerError(ListenerName, errors.New("listener already exists"))
+								return
+							}
+
 							// try to start the listener.
 							if err = listener.Start(pk.Body.Info); err != nil {
 								t.EventListenerError(ListenerName, err)
